@@ -1,11 +1,6 @@
 SPECIFICATION Spec
 CONSTANTS
-  NB = 2
-  IL = 2
-  RowSz = 2
-  Width = 1
-  Track = TRUE
-  Deviations <- NoDev
+  Config <- DesignT1
   PortCap = 2
   PostCap = 1
   Payloads <- MCSmall
